@@ -5,12 +5,15 @@ EXTENDS MqttClient, Json
 
 CONSTANT SampleK
 
-P1(tag) == [m |-> "PublishAtLeastOnce", tag |-> tag]
-P2(tag) == [m |-> "PublishExactlyOnce", tag |-> tag]
-CloseOp == [m |-> "Close", tag |-> 0]
-PingOp == [m |-> "Ping", tag |-> 0]
-SubOp == [m |-> "Subscribe", tag |-> 0]
-P0(tag) == [m |-> "Publish", tag |-> tag]
+P1(tag) == [m |-> "PublishAtLeastOnce", tag |-> tag, quit |-> "nil"]
+P2(tag) == [m |-> "PublishExactlyOnce", tag |-> tag, quit |-> "nil"]
+CloseOp == [m |-> "Close", tag |-> 0, quit |-> "nil"]
+PingOp == [m |-> "Ping", tag |-> 0, quit |-> "nil"]
+SubOp == [m |-> "Subscribe", tag |-> 0, quit |-> "nil"]
+DiscOp == [m |-> "Disconnect", tag |-> 0, quit |-> "nil"]
+UnsubOp == [m |-> "Unsubscribe", tag |-> 0, quit |-> "nil"]
+P0(tag) == [m |-> "Publish", tag |-> tag, quit |-> "nil"]
+Later(op) == [op EXCEPT !.quit = "later"]
 
 NoIn == <<>>
 In012 == <<[qos |-> 1, tag |-> 501], [qos |-> 2, tag |-> 502], [qos |-> 0, tag |-> 503]>>
@@ -21,6 +24,8 @@ Gen2None == ("v2" :> <<>>)
 Gen2Q1 == ("v2" :> <<P1(101)>>)
 Gen2Q2 == ("v2" :> <<P2(101)>>)
 ScriptQ12 == ("w1" :> <<P1(1), P2(2)>>)
+ScriptQ1x5 == ("w1" :> <<P1(1), P1(2), P1(3), P1(4), P1(5)>>)
+ScriptQ2x4 == ("w1" :> <<P2(1), P2(2), P2(3), P2(4)>>)
 ScriptQ222 == ("w1" :> <<P2(1), P2(2), P2(3)>>)
 ScriptOne == ("w1" :> <<P1(1)>>)
 ScriptQ2  == ("w1" :> <<P2(1)>>)
@@ -29,6 +34,10 @@ ScriptClose == ("w1" :> <<P1(1)>>) @@ ("c1" :> <<CloseOp>>)
 ScriptReq == ("w1" :> <<P0(1), PingOp>>) @@ ("w2" :> <<SubOp>>)
 ScriptPings == ("w1" :> <<PingOp>>) @@ ("w2" :> <<PingOp, P0(2)>>)
 ScriptPings2 == ("w1" :> <<PingOp>>) @@ ("w2" :> <<SubOp, PingOp>>)
+ScriptQuit == ("w1" :> <<Later(PingOp), PingOp>>) @@ ("w2" :> <<Later(SubOp), UnsubOp>>)
+ScriptUnsub == ("w1" :> <<UnsubOp, P0(1)>>) @@ ("w2" :> <<SubOp>>)
+ScriptDisc == ("w1" :> <<P1(1)>>) @@ ("c1" :> <<DiscOp>>)
+ScriptDiscReq == ("w1" :> <<PingOp>>) @@ ("c1" :> <<DiscOp>>) @@ ("c2" :> <<CloseOp>>)
 ScriptReqClose == ("w1" :> <<PingOp>>) @@ ("w2" :> <<SubOp>>) @@ ("c1" :> <<CloseOp>>)
 ScriptMixReq == ("w1" :> <<P1(1)>>) @@ ("w2" :> <<P0(2), SubOp>>)
 ScriptF4 == ("w1" :> <<P2(1)>>) @@ ("w2" :> <<P0(2)>>)
@@ -36,10 +45,12 @@ ScriptMix == ("w1" :> <<P1(1), P2(2)>>) @@ ("w2" :> <<P2(3)>>) @@ ("c1" :> <<Clo
 
 ASSUME PrintT(<<"SCRIPT", ToJson(Script)>>)
 ASSUME PrintT(<<"SCRIPT2", ToJson(Script2)>>)
+ASSUME PrintT(<<"INMSGS", ToJson(InMsgs)>>)
 Terminal == \A p \in Procs : MovesOf(st, p) = {}
 \* one behaviour per transition of the bounded model (or a seeded sample of them)
+\* (transitions after a damaged restart are rare among all transitions and are sampled twenty times as often)
 ExportStep ==
-  (hist' # hist /\ (SampleK = 1 \/ RandomElement(1..SampleK) = 1)) =>
+  (hist' # hist /\ (SampleK = 1 \/ RandomElement(1..(IF st'.damaged > 0 /\ SampleK >= 20 THEN SampleK \div 20 ELSE SampleK)) = 1)) =>
      PrintT(<<"CASE", ToJson([steps |-> hist'])>>)
 \* behaviours that reach a state the design forbids (used with the DEV_ switches: the specification regenerates a
 \* finding, the behaviour is replayed on the real code, the monitor decides)
